@@ -284,6 +284,29 @@ func evalC18(c c18Case, o *Obs) error {
 	if again, _ := serializeTx(tx); !bytes.Equal(before, again) {
 		return fmt.Errorf("%s: modifying the sorted copy changed the original transaction", desc)
 	}
+	// one inversion anywhere: the sorted transaction with two neighbouring entries (of different keys) exchanged is
+	// not sorted, whichever pair it is
+	if n := len(s.TxIn); n >= 2 && n <= 400 {
+		sw := txsort.Sort(tx)
+		for p := 0; p+1 < n; p++ {
+			if refInCmp(sw.TxIn[p], sw.TxIn[p+1]) != 0 {
+				sw.TxIn[p], sw.TxIn[p+1] = sw.TxIn[p+1], sw.TxIn[p]
+				if txsort.IsSorted(sw) {
+					return fmt.Errorf("%s: IsSorted is true although inputs %d and %d (of %d) are out of order", desc, p, p+1, n)
+				}
+				sw.TxIn[p], sw.TxIn[p+1] = sw.TxIn[p+1], sw.TxIn[p]
+			}
+		}
+		for p := 0; p+1 < len(sw.TxOut) && len(sw.TxOut) <= 400; p++ {
+			if refOutCmp(sw.TxOut[p], sw.TxOut[p+1]) != 0 {
+				sw.TxOut[p], sw.TxOut[p+1] = sw.TxOut[p+1], sw.TxOut[p]
+				if txsort.IsSorted(sw) {
+					return fmt.Errorf("%s: IsSorted is true although outputs %d and %d (of %d) are out of order", desc, p, p+1, len(sw.TxOut))
+				}
+				sw.TxOut[p], sw.TxOut[p+1] = sw.TxOut[p+1], sw.TxOut[p]
+			}
+		}
+	}
 	cp := c.build()
 	heldIn, heldOut := cp.TxIn, cp.TxOut // the caller's own slices, and the objects in them
 	inSet, outSet := map[*wire.TxIn]int{}, map[*wire.TxOut]int{}
